@@ -2,7 +2,7 @@
 import zlib
 
 from pyvc.core import And, Eq, Implies, Ite, Not, Or, SymBytes
-from pyvc.unit import unit
+from pyvc.unit import bare, unit
 from specs import adler as A
 
 DEX = "androguard/core/dex/__init__.py"
@@ -220,7 +220,7 @@ def rejected_before_parsing(U):
     saved = (m.HeaderItem, m.MapList)
     m.HeaderItem, m.MapList = Hdr, ML
     try:
-        d = object.__new__(m.DEX)
+        d = bare(m.DEX)
         d.raw, d.CM = _Raw(), _CM()
         d._flush = lambda: events.append("flush")
         o = U.call(d._load, None)
